@@ -3,6 +3,7 @@ package scen
 import (
 	res "github.com/jirenius/go-res"
 	"github.com/jirenius/go-res/logger"
+	"time"
 
 	"fmt"
 
@@ -268,6 +269,36 @@ func init() {
 		}, sp
 	}})
 
+	// S4q: as S4, but the callback that is mid-execution starts a query event (subscribes on the connection).
+	reg(&Scenario{Name: "S4q", Make: func(cfg Cfg) (func(), *Spec) {
+		sp := &Spec{Shutdown: true, Closes: 1}
+		return func() {
+			w := NewWorld(cfg)
+			sdone := make(chan struct{}, 1)
+			w.StartServe(sdone)
+			started := make(chan struct{}, 1)
+			vsched.Emit(Mon, "submit W1")
+			w.S.With(w.A("1"), func(r res.Resource) {
+				vsched.Emit(Mon, "enter W1 g="+r.Group()+" want="+w.RefGroup(r.ResourceName()))
+				vsched.Send(started, struct{}{})
+				vsched.Yield()
+				Guard("QueryEvent", func() {
+					r.QueryEvent(func(q res.QueryRequest) {
+						if q == nil {
+							vsched.Emit(Mon, "qnil")
+						}
+					})
+				})
+				vsched.Emit(Mon, "exit W1")
+			})
+			vsched.Recv(started)
+			shutdown(w)
+			vsched.Recv(sdone)
+			vsched.Sleep(10 * time.Second)
+			vsched.AwaitQuiescence()
+		}, sp
+	}})
+
 	// S7: subscription failure (Serve itself starts Shutdown on another goroutine).
 	reg(&Scenario{Name: "S7", Make: func(cfg Cfg) (func(), *Spec) {
 		sp := &Spec{Shutdown: true, Closes: 1}
@@ -344,46 +375,53 @@ func init() {
 		}, sp
 	}})
 
-	// S8: Shutdown drops work that is still queued behind a busy worker; after a restart the same groups and
-	// resources must be served again (nothing of the first epoch's queues may leak into the second).
-	reg(&Scenario{Name: "S8", Make: func(cfg Cfg) (func(), *Spec) {
-		sp := &Spec{Shutdown: true, Closes: 1, Late: []string{"W3", "W4", "W5"}, LateReply: []string{"R8", "R9"}}
-		return func() {
-			w := NewWorld(cfg)
-			sdone := make(chan struct{}, 2)
-			w.StartServe(sdone)
-			started := make(chan struct{}, 1)
-			release := make(chan struct{}, 1)
-			vsched.Emit(Mon, "submit W1")
-			w.S.With(w.A("1"), func(r res.Resource) {
-				vsched.Emit(Mon, "enter W1 g="+r.Group()+" want="+w.RefGroup(r.ResourceName()))
-				vsched.Send(started, struct{}{})
-				vsched.Recv(release)
-				vsched.Emit(Mon, "exit W1")
-			})
-			vsched.Recv(started)
-			// with one worker these wait in the work queue behind W1
-			w.With("W2", w.A("2"))
-			w.WithGroup("W6", "free")
-			w.Req("get."+w.A("2"), "R1")
-			done := make(chan struct{}, 4)
-			spawn("X", done, func() { shutdown(w) })
-			spawn("U", done, func() { vsched.Send(release, struct{}{}) })
-			join(done, 2)
-			vsched.Recv(sdone)
-			vsched.Emit(Mon, "epoch2")
-			w.StartServe(sdone)
-			w.With("W3", w.A("2"))
-			w.WithGroup("W4", "free")
-			w.With("W5", w.A("1"))
-			w.Req("get."+w.A("2"), "R8")
-			w.Req("get."+w.A("1"), "R9")
-			vsched.AwaitQuiescence()
-			shutdown(w)
-			vsched.Recv(sdone)
-			vsched.AwaitQuiescence()
-		}, sp
-	}})
+	// S8 / S8r: Shutdown drops work that is still queued behind a busy worker; after a restart the same groups
+	// and resources must be served again (nothing of the first epoch's queues may leak into the second).
+	for _, variant := range []string{"S8", "S8r"} {
+		variant := variant
+		reg(&Scenario{Name: variant, Make: func(cfg Cfg) (func(), *Spec) {
+			sp := &Spec{Shutdown: true, Closes: 1, Late: []string{"W3", "W4"}, LateReply: []string{"R8"}}
+			return func() {
+				w := NewWorld(cfg)
+				sdone := make(chan struct{}, 2)
+				w.StartServe(sdone)
+				started := make(chan struct{}, 1)
+				release := make(chan struct{}, 1)
+				vsched.Emit(Mon, "submit W1")
+				w.S.With(w.A("1"), func(r res.Resource) {
+					vsched.Emit(Mon, "enter W1 g="+r.Group()+" want="+w.RefGroup(r.ResourceName()))
+					vsched.Send(started, struct{}{})
+					vsched.Recv(release)
+					vsched.Emit(Mon, "exit W1")
+				})
+				vsched.Recv(started)
+				// with one worker these wait in the work queue behind W1
+				if variant == "S8" {
+					w.With("W2", w.A("2"))
+					w.WithGroup("W6", "free")
+				} else {
+					w.Req("get."+w.A("2"), "R1")
+				}
+				done := make(chan struct{}, 4)
+				spawn("X", done, func() { shutdown(w) })
+				spawn("U", done, func() { vsched.Send(release, struct{}{}) })
+				join(done, 2)
+				vsched.Recv(sdone)
+				vsched.Emit(Mon, "epoch2")
+				w.StartServe(sdone)
+				if variant == "S8" {
+					w.With("W3", w.A("2"))
+					w.WithGroup("W4", "free")
+				} else {
+					w.Req("get."+w.A("2"), "R8")
+				}
+				vsched.AwaitQuiescence()
+				shutdown(w)
+				vsched.Recv(sdone)
+				vsched.AwaitQuiescence()
+			}, sp
+		}})
+	}
 
 	// S6: a straggling submitter spans a full stop/start cycle.
 	reg(&Scenario{Name: "S6", Make: func(cfg Cfg) (func(), *Spec) {
